@@ -155,6 +155,7 @@ class gcvar(object):
         self.category = self._header['category'][0].strip()
         self.tracerid = self._header['tracerid'][0]
         self.base_units = self._header['base_units'][0]
+        self.reserved = self._header['reserved'][0]
         category = self.category
         if hasattr(category, 'decode'):
             category = category.decode()
